@@ -743,6 +743,12 @@ def check_C11(chk):
                                                   Cuts={False, True}, Stalls={False, True}, CheckStatus=True, Slots="own"),
            HTTP_INV, properties=["AllReturn"])
     chk.add_mc(r, "MC_Http/mixed (2 clients, faults)")
+    # second-order use: sends in a row through one client object, keep-alive peer, two runtimes (replayed natively by
+    # the scenario "the same client object again")
+    for pol in ["never", "drained-same-runtime"]:
+        r = mc("C11", "mc_conn_" + pol.replace("-", "_"), "MC_HttpConn.tla", dict(K=3 if q else 4, Runtimes={1, 2}, Reuse=pol),
+               ["OnePostEach", "OwnAnswer", "NeverStuck"], properties=["AllReturn"])
+        chk.add_mc(r, "MC_HttpConn Reuse=%s (safety+liveness)" % pol)
     out = os.path.join(wd, "run")
     harness("vh", ["net", "--out", out, "--seed", chk.seed, "--tier", chk.tier, "--cases", cases], timeout=7200)
     run_sample(chk, out)
@@ -919,6 +925,10 @@ DEVIATIONS = [
     ("C11", "responses handed to whichever sender asks next", "MC_Http.tla",
      dict(Clients={1, 2}, Framings={"length"}, Statuses={200}, Cuts={False}, Stalls={False}, CheckStatus=True, Slots="shared"),
      ["OwnResponse", "GoodIsReturned"], None),
+    ("C11", "an idle connection reused although the previous answer was not read to the end", "MC_HttpConn.tla",
+     dict(K=3, Runtimes={1}, Reuse="always"), ["OwnAnswer"], None),
+    ("C11", "an idle connection reused from another runtime while its owner's driver is idle", "MC_HttpConn.tla",
+     dict(K=2, Runtimes={1, 2}, Reuse="any-runtime"), ["NeverStuck"], None),
     ("C12", "D9 DER root certificates dropped", "MC_Tls.tla", dict(DerRoots="dropped"), ["SuppliedRootAccepted"], None),
     ("C18", "-n flag inverted", "MC_Util.tla", dict(NoCheckFlag="inverted", OptClasses={"int"}, MaxOpts=0),
      ["NothingSubmittedWhenNotReady", "CheckComesFirst", "ExitZeroIffAllSucceeded"], None),
